@@ -94,6 +94,16 @@ class V2(object):
         o.written = set()
         o.assumed_state = True
         o.assumed_fields = set(o.fields)
+        from pyvc import extra
+
+        def parsed():
+            m = SMap(self.o.dom, self.o.val, None, "metrics")
+            m.info = self.o.info
+            return {"metrics": m}
+
+        extra.attach(ctx, o, "v2view", self, known=set(o.fields),
+                     stop_after=None if phase == "done" else "check_mandatory",
+                     parsed_fields=parsed, accessors=ACCESSORS2, closure=(phase == "done"))
         return o
 
     def field_value(self, n):
@@ -105,6 +115,17 @@ class V2(object):
 
 def view_of(o):
     return o.v2view
+
+
+_TF = (True, False)
+ACCESSORS2 = (
+    ("scores", [((), {})]), ("severities", [((), {})]),
+    ("clean_vector", [((), {})]),
+    ("rh_vector", [((), {})]), ("temporal_vector", [((), {})]), ("environmental_vector", [((), {})]),
+    ("as_json", [((), {"sort": a, "minimal": b}) for a in _TF for b in _TF]),
+    ("__hash__", [((), {})]), ("__eq__", []),
+    ("get_value_description", []),
+)
 
 
 class V2Contract(Contract):
